@@ -76,6 +76,7 @@ type Report struct {
 	WallS      float64  `json:"wall_s"`
 	MemoMisses int      `json:"reference_evaluations"`
 	Hashes     []string `json:"hashes,omitempty"`
+	RaceCounts []int    `json:"race_counts,omitempty"`
 	Harness    string   `json:"harness_fault,omitempty"`
 	Rule       string   `json:"rule"`
 }
